@@ -104,8 +104,59 @@ def repeatedVarScanL : NodeList → Bool
   | .cons t ts => repeatedVarScan t || repeatedVarScanL ts
 end
 
+mutual
+def hasAggregate : Node → Bool
+  | .aggregate .. => true
+  | .scan .. => false
+  | .hnsw .. => false
+  | .map i _ _ => hasAggregate i
+  | .filter i _ => hasAggregate i
+  | .join l r _ _ _ => hasAggregate l || hasAggregate r
+  | .distinct i => hasAggregate i
+  | .union is => hasAggregateL is
+  | .antijoin l r _ _ _ => hasAggregate l || hasAggregate r
+  | .compute i _ => hasAggregate i
+  | .flatMap i _ _ _ => hasAggregate i
+  | .joinFlatMap l r _ _ _ _ _ => hasAggregate l || hasAggregate r
+def hasAggregateL : NodeList → Bool
+  | .nil => false
+  | .cons t ts => hasAggregate t || hasAggregateL ts
+end
+
+def staticallyEmpty : Node → Bool
+  | .filter _ .ff => true
+  | .union .nil => true
+  | _ => false
+
+/- a `Union` with several branches whose first branch is statically empty (its `output_schema()` becomes `[]`
+    after `eliminate_always_false_filters`) -/
+mutual
+def emptyFirstBranch : Node → Bool
+  | .union (.cons c (.cons d rest)) => staticallyEmpty c || emptyFirstBranch c || emptyFirstBranch d || emptyFirstBranchL rest
+  | .union is => emptyFirstBranchL is
+  | .scan .. => false
+  | .hnsw .. => false
+  | .map i _ _ => emptyFirstBranch i
+  | .filter i _ => emptyFirstBranch i
+  | .join l r _ _ _ => emptyFirstBranch l || emptyFirstBranch r
+  | .distinct i => emptyFirstBranch i
+  | .aggregate i _ _ _ => emptyFirstBranch i
+  | .antijoin l r _ _ _ => emptyFirstBranch l || emptyFirstBranch r
+  | .compute i _ => emptyFirstBranch i
+  | .flatMap i _ _ _ => emptyFirstBranch i
+  | .joinFlatMap l r _ _ _ _ _ => emptyFirstBranch l || emptyFirstBranch r
+def emptyFirstBranchL : NodeList → Bool
+  | .nil => false
+  | .cons t ts => emptyFirstBranch t || emptyFirstBranchL ts
+end
+
 def passClass (pass : String) (t : Node) : String :=
-  if pass == "opt" then (if optPushUnsafe t then "pushdown_right_past_join_key" else "unclassified")
+  if pass == "opt" then
+    (if optPushUnsafe t then "pushdown_right_past_join_key"
+     else if emptyFirstBranch t then "empty_first_union_branch_width"
+     else "unclassified")
+  else if pass == "bs" then
+    (if analyze t == .boolean && hasAggregate t then "aggregate_under_boolean_annotation" else "unclassified")
   else if pass == "jp" then
     (if topIsUnion t && hasJoins t then "union_root_under_join_planning"
      else if repeatedVarScan t then "repeated_var_in_scan_under_join_planning"
@@ -130,7 +181,9 @@ def passH : Handler := fun args impl =>
           let toks := implTreeStr.splitOn " "
           ("", (parseNode (toks.length + 1) toks).bind (fun (o, r) => if r.isEmpty then some o else none))
       match out with
-      | none => { model := "unparsable-pass-output", spec := "na", nt := false }
+      | none =>
+        -- only reachable for passes without a Lean model (join planning) when the real pass panicked
+        { model := impl, spec := if jpShape t then specFail (passClass pass t) "pass-panicked" else "na", nt := false }
       | some o =>
         let m := tag ++ o.wire ++ "#" ++ relWire (answer db t) ++ "#" ++ relWire (answer db o)
         let spec := match parts with
